@@ -271,16 +271,17 @@ Copy(sliced) == CopyT(sliced) /\ Log("Copy", <<sliced>>, "ok")
 (* molecule type it already has returns the view itself.  Otherwise the         *)
 (* statement leaves open whether the result stays a view of the (converted)    *)
 (* root or becomes the root of a new frame whose string is the converted       *)
-(* display (what cogent3 does: offset 0, seqid kept or dropped).               *)
+(* display (what cogent3 does: offset 0, seqid dropped - or, for an empty      *)
+(* view since c22abf469, the sequence name).                                  *)
 ConvT(m) ==
     \/ /\ m = mol /\ UNCHANGED vars
     \/ /\ m # mol /\ mol' = m /\ UNCHANGED <<L, off, sid, idx, comp, v>>
        /\ gen' = Alt                                   \* allowed, not what cogent3 does: not explored further
     \/ /\ m # mol /\ mol' = m
-       /\ L' = Len(idx) /\ off' = 0 /\ sid' \in {sid, "none"}
+       /\ L' = Len(idx) /\ off' = 0 /\ sid' \in {sid, "none", "s"}     \* seqid kept, dropped, or the name ("s")
        /\ idx' = Ident(Len(idx)) /\ comp' = FALSE
        /\ v' = New(Len(idx), None, None, 1, 0, sid')
-       /\ gen' = IF sid' = "none" THEN gen + 1 ELSE Alt
+       /\ gen' = IF sid' = "none" \/ (Len(idx) = 0 /\ sid' = "s") THEN gen + 1 ELSE Alt   \* the outcomes cogent3 takes
 Conv(m) == ConvT(m) /\ Log("Conv", <<m>>, "ok")
 
 (* the symbol tables (once per root) *)
